@@ -225,7 +225,8 @@ def check_c14(prop, tier, seed):
             for c in cfgs:
                 if c['kind'] == 'funnel':
                     c.update(n_dim=3, n_points_min=5)
-        boosts = [0.3, 1.0, 1.5, 2.5, 10.0]
+        # (tiny boosts: the resampled posterior is often EMPTY, which is a legal outcome)
+        boosts = [0.002, 0.01, 0.3, 1.0, 1.5, 2.5, 10.0]
         n_states = 4 if tier == 'quick' else 25
         outs = common.pmap(ew_ops.records_for_run, [(c, boosts, n_states) for c in cfgs])
         log = [r for o in outs for r in o]
